@@ -93,8 +93,66 @@ pub struct Running {
     pub ctx: C,
 }
 
+/// The server's own request log as a second event source: which request ids the
+/// server recorded as "request completed" and which as "request handling
+/// cancelled (client disconnected)".  Enabled per process by `enable_log_capture`.
+#[derive(Default)]
+pub struct LogCapture {
+    pub completed: Mutex<HashMap<String, u32>>,
+    pub cancelled: Mutex<HashMap<String, u32>>,
+    pub records: AtomicU64,
+}
+
+static CAPTURE: std::sync::OnceLock<Arc<LogCapture>> = std::sync::OnceLock::new();
+
+pub fn enable_log_capture() -> Arc<LogCapture> {
+    CAPTURE.get_or_init(|| Arc::new(LogCapture::default())).clone()
+}
+
+struct ReqIdOf(Option<String>);
+impl slog::Serializer for ReqIdOf {
+    fn emit_arguments(&mut self, key: slog::Key, val: &std::fmt::Arguments) -> slog::Result {
+        if key == "req_id" {
+            self.0 = Some(val.to_string());
+        }
+        Ok(())
+    }
+}
+
+struct CaptureDrain(Arc<LogCapture>);
+impl slog::Drain for CaptureDrain {
+    type Ok = ();
+    type Err = slog::Never;
+    fn log(&self, record: &slog::Record, values: &slog::OwnedKVList) -> Result<(), slog::Never> {
+        use slog::KV;
+        self.0.records.fetch_add(1, Ordering::Relaxed);
+        let msg = record.msg().to_string();
+        let which = if msg == "request completed" {
+            Some(&self.0.completed)
+        } else if msg.starts_with("request handling cancelled") {
+            Some(&self.0.cancelled)
+        } else {
+            None
+        };
+        if let Some(map) = which {
+            let mut ser = ReqIdOf(None);
+            let _ = values.serialize(record, &mut ser);
+            let _ = record.kv().serialize(record, &mut ser);
+            if let Some(id) = ser.0 {
+                *map.lock().unwrap().entry(id).or_insert(0) += 1;
+            }
+        }
+        Ok(())
+    }
+}
+
+/// the logger every harness server gets: discards everything, unless log capture
+/// was enabled for this process
 pub fn discard_logger() -> slog::Logger {
-    slog::Logger::root(slog::Discard, slog::o!())
+    match CAPTURE.get() {
+        Some(cap) => slog::Logger::root(slog::Fuse(CaptureDrain(cap.clone())), slog::o!()),
+        None => slog::Logger::root(slog::Discard, slog::o!()),
+    }
 }
 
 pub fn start(
